@@ -77,6 +77,31 @@ func (ex *Exec) floatBin(op token.Token, a, b *Term) (Value, error) {
 			return c.Bool(x >= y), nil
 		}
 	}
+	if a.Op == OIte && b.IsConst() {
+		if r := c.LiftIte(a, func(leaf *Term) *Term {
+			v, _ := ex.floatBin(op, leaf, b)
+			return v.(*Term)
+		}); r != nil {
+			return r, nil
+		}
+	}
+	if b.Op == OIte && a.IsConst() {
+		if r := c.LiftIte(b, func(leaf *Term) *Term {
+			v, _ := ex.floatBin(op, a, leaf)
+			return v.(*Term)
+		}); r != nil {
+			return r, nil
+		}
+	}
+	if a.Op == OIte && !b.IsConst() && b.Op != OIte {
+		// f(ite-tree of constants, symbolic): lift as well (comparisons against a symbolic bound)
+		if r := c.LiftIte(a, func(leaf *Term) *Term {
+			v, _ := ex.floatBin(op, leaf, b)
+			return v.(*Term)
+		}); r != nil {
+			return r, nil
+		}
+	}
 	w := a.S.W
 	switch op {
 	case token.ADD:
@@ -418,6 +443,14 @@ func (ex *Exec) convert(s *State, from, to types.Type, v Value) (Value, error) {
 				}
 				return c.App(name, so, t), nil
 			case !ff && tf:
+				if t.Op == OIte {
+					if r := c.LiftIte(t, func(leaf *Term) *Term {
+						v, _ := ex.convert(s, from, to, leaf)
+						return v.(*Term)
+					}); r != nil {
+						return r, nil
+					}
+				}
 				if t.IsConst() && so.W == 64 {
 					if isSigned(from) {
 						return c.BV(64, math.Float64bits(float64(t.SInt64()))), nil
